@@ -72,6 +72,8 @@ def json_value_slots(fmt, doc):
     if fmt == "images":
         for variant, arches in sorted(p["images"].items()):
             for arch, lst in sorted(arches.items()):
+                if lst:
+                    out.append(("images.cell-arch-invalid", ["payload", "images", variant, arch], ["__rename_arch__"]))
                 for i, img in enumerate(lst):
                     ip = ["payload", "images", variant, arch, i]
                     out += [("image.path", ip + ["path"], ["", None, 5]), ("image.mtime", ip + ["mtime"], DOC_BAD_INTS),
@@ -242,6 +244,15 @@ def apply(fmt, doc, cor):
         if kind == "value":
             if not has_path(d, cor["path"][:-1]):
                 return None
+            if cor["value"] == "__rename_arch__" or cor.get("slot") == "images.cell-arch-invalid":
+                # file the cell's images under a source / unknown architecture key
+                if not has_path(d, cor["path"]):
+                    return None
+                cell = get_path(d, cor["path"])
+                del_path(d, cor["path"])
+                new_arch = cor.get("new_arch", "src")
+                get_path(d, cor["path"][:-1])[new_arch] = cell
+                return d
             set_path(d, cor["path"], cor["value"])
         elif kind == "delete":
             if not has_path(d, cor["path"]):
